@@ -17,7 +17,7 @@ THEOREMS = [{'name': f'Props.C07.{n}', 'module': M} for n in [
     'C07_gen_merge_shape', 'C07_gen_join_cond_route', 'C07_gen_ref_branch', 'C07_gen_elim_tests', 'C07_gen_translated', 'C07_gen_object_query',
     'C07_merge_is_join', 'C07_join_pairs', 'C07_join_count', 'C07_null_never_matches', 'C07_F3_prefix_clash_raises',
     'C07_branch_is_evalRule', 'C07_rule_is_join', 'C07_refobj', 'C07_refobj_generation_rules',
-    'C07_elim_repaired_is_shared', 'C07_elim_result', 'C07_elimination_sound', 'C07_elimination_partial', 'C07_repaired_tests',
+    'C07_elim_found_is_shared', 'C07_elim_result', 'C07_elimination_sound', 'C07_elimination_partial', 'C07_repaired_tests',
     'C07_elimination_repaired', 'C07_F1_identity_pairing', 'C07_F2_null_key_linked', 'C07_F1_F2_repaired_behaviour',
     'C07_repaired_still_eliminates', 'C07_F4_referencing_map_lost', 'C07_F4_repaired_query']] + [
     {'name': 'Model.mergeFrames_eq_mergeDataP', 'module': 'MorphKgc.Lemmas.Join'},
